@@ -379,8 +379,10 @@ def run_garbage_job(acc, job):
         cases.append(pre + body)
     for i, d in enumerate(cases):
         lazy = LAZIES[i % 3]
-        case = {"space": "open", "src": None, "ckind": "garbage", "fault": ["raw", d], "lazy": lazy}
-        out = open_case(acc, "garbage", d, lazy, case)
+        # bucketed under the container kind that the magic number announces
+        gk = F.kind_of(d)
+        case = {"space": "open", "src": None, "ckind": gk, "fault": ["raw", d], "lazy": lazy}
+        out = open_case(acc, gk, d, lazy, case)
         acc.case(("garbage", d, lazy), nontrivial=not out.startswith("opened:all-tables"), labels=["open:garbage", "open:outcome:%s" % out, "open:garbage:kind=%s" % F.kind_of(d)], sample=case if i == 40 else None)
 
 
@@ -1093,7 +1095,7 @@ def ufo_case(acc, env, case):
         o = T.guarded(env, [env.work], fn)
     else:
         raise HarnessError("unknown ufo sub %r" % sub)
-    nf = T.report(acc, "text:%s" % sub, case, env, o)
+    nf = T.report(acc, "text:ufo", case, env, o)
     return "violation" if nf else ("ran:%s" % (type(o.exc).__name__ if o.exc is not None else "ok"))
 
 
